@@ -142,3 +142,50 @@ fn c16_bool() {
     std::mem::forget(g);
     kani::cover!(true, "COVER:end");
 }
+
+/// the same contract after an earlier installation on the same entry with other code behind it (the
+/// back end has no licence to remember what it read before): any state, any fake, twice
+#[kani::proof]
+#[kani::unwind(14)]
+#[kani::stub(crate::injector_core::common::read_bytes, rec_read_bytes)]
+#[kani::stub(crate::injector_core::common::patch_function, rec_patch_function)]
+fn c16_again() {
+    let src: u32 = kani::any();
+    let fake0: u32 = kani::any();
+    let fake: u32 = kani::any();
+    kani::assume(src != 0 && fake0 != 0 && fake != 0 && src % 4 != 2);
+    unsafe {
+        ORIG = kani::any();
+    }
+    let g0 = PatchArm::replace_function_with_other_function(fp_int(src as usize), fp_int(fake0 as usize));
+    std::mem::forget(g0);
+    unsafe {
+        R_CALLS = 0;
+        P_CALLS = 0;
+        ORIG = kani::any();
+    }
+    let g = PatchArm::replace_function_with_other_function(fp_int(src as usize), fp_int(fake as usize));
+    let dest = src & !1;
+    unsafe {
+        let j: usize = kani::any();
+        kani::assume(j < 12);
+        crate::obligations! {
+            (g_orig(&g).len() == 12 && g_orig(&g)[j] == ORIG[j]) => "OBL:C02.save.arm.again: after an earlier installation, the guard still holds the bytes that are at the entry at THIS installation",
+            (P_CALLS == 1 && P_LEN == 12 && P_DEST == dest as usize && g_func(&g) == dest as usize) => "OBL:C16.written-range.again: exactly the 12 entry bytes are overwritten, once",
+        }
+        let e = arm_entry_decode(&P_PATCH, dest, src & 1 == 1);
+        let ok = match e {
+            Some(e) => {
+                let off = e.load_addr.wrapping_sub(dest);
+                off <= 8 && {
+                    let o = off as usize;
+                    u32::from_le_bytes([P_PATCH[o], P_PATCH[o + 1], P_PATCH[o + 2], P_PATCH[o + 3]]) == fake
+                }
+            }
+            None => false,
+        };
+        assert!(ok, "OBL:C16.loads-fake.again: the second installation branches to ITS fake");
+    }
+    std::mem::forget(g);
+    kani::cover!(true, "COVER:end");
+}
